@@ -40,6 +40,7 @@ func plansFor(prop string, thorough bool) ([]Plan, int) {
 			{Name: "val", Const: "val", Kinds: []string{"vote", "seen", "checkin"}, Depth: d(5, 7),
 				SimNum: d(60, 1500), SimDepth: d(40, 60), MaxBeh: d(2500, 40000)},
 			{Name: "val2-deep", Const: "val2", Kinds: []string{"vote", "seen", "checkin"}, Depth: d(8, 10), MaxBeh: d(0, 0)},
+			{Name: "val1-refused", Const: "val1", Kinds: []string{"seen", "checkin", "badcheckin", "vote", "badvote"}, Depth: d(7, 9), MaxBeh: d(0, 0)},
 			{Name: "val6", Const: "val6", Kinds: []string{"seen", "checkin"}, Depth: d(4, 7), SimNum: d(150, 2000), SimDepth: d(40, 60), MaxBeh: d(1500, 30000)},
 		}, 1
 	case "C10":
@@ -56,6 +57,9 @@ func plansFor(prop string, thorough bool) ([]Plan, int) {
 				SimNum: d(150, 1500), SimDepth: d(25, 40), MaxBeh: d(600, 8000)},
 			{Name: "val-c13", Const: "val", Kinds: []string{"vote", "seen", "checkin"}, Depth: d(4, 6), Twins: "c13", MaxBeh: d(600, 8000)},
 			{Name: "val2-c13", Const: "val2", Kinds: []string{"vote", "seen", "checkin"}, Depth: d(6, 8), Twins: "c13", MaxBeh: d(800, 8000)},
+			{Name: "one-chk-c13", Const: "one", Kinds: []string{"chk", "seen"}, Depth: d(6, 8), Twins: "c13", MaxBeh: d(600, 6000)},
+			{Name: "vallegacy-c13", Const: "vallegacy", Kinds: []string{"seen", "checkin"}, Depth: d(5, 6), Twins: "c13", MaxBeh: d(600, 6000)},
+			{Name: "gov-nosave-c13", Const: "gov", Kinds: []string{"vote", "seen", "dkgres"}, Depth: d(4, 5), Twins: "c13", NoSave: true, MaxBeh: d(800, 8000)},
 			{Name: "valdev-c13", Const: "valdev", Kinds: []string{"vote", "seen", "checkin"}, Depth: d(4, 5), Twins: "c13", SimNum: d(150, 1000), SimDepth: d(20, 30), MaxBeh: d(600, 8000)},
 		}, 1
 	}
